@@ -79,6 +79,7 @@ class Translator:
         self.ab = ab
         self.rc = RegexCompiler(ab)
         self.ALL = dfa_all(ab.n)
+        self._modconst = {}
         self.NONE = dfa_none(ab.n)
         self.cache = {}
 
@@ -171,6 +172,37 @@ class Translator:
         import copy
         return T().visit(copy.deepcopy(node))
 
+    def _inline_module_constants(self, node, var, env, mod):
+        """`if len(n) > _MAX_NAME_LENGTH`: a module-level name bound once to
+        an int / str / bool (and never rebound or mutated) is its value."""
+        names = {n.id for n in ast.walk(node) if isinstance(n, ast.Name) and
+                 isinstance(n.ctx, ast.Load) and n.id not in env and
+                 n.id != var}
+        sub = {}
+        for nm in names:
+            vals = mod.assigns.get(nm)
+            if not vals or len(vals) != 1 or nm in mod.mutated:
+                continue
+            key = (mod.name, nm)
+            if key not in self._modconst:
+                from ..sym import Interp, try_py
+                v = Interp(self.prog).eval_in_module(mod, vals[0])
+                ok, pv = try_py(v) if v is not None else (False, None)
+                self._modconst[key] = ast.Constant(value=pv) if ok and \
+                    isinstance(pv, (int, str, bool)) else None
+            if self._modconst[key] is not None:
+                sub[nm] = self._modconst[key]
+        if not sub:
+            return node
+
+        class T(ast.NodeTransformer):
+            def visit_Name(self, n):
+                if isinstance(n.ctx, ast.Load) and n.id in sub:
+                    return ast.copy_location(sub[n.id], n)
+                return n
+        import copy
+        return T().visit(copy.deepcopy(node))
+
     def _first_match(self, v, env, mod):
         """(rows, target, tests) if v is next((... for T in TABLE if
         TESTS), None) over a literal table (in place, a local, or a
@@ -236,6 +268,37 @@ class Translator:
             return Lang(la.false(), la.raises) if neg else la
         if not (isinstance(node, ast.Name) and node.id in env):
             node = self._inline_locals(node, env)
+        node = self._inline_module_constants(node, var, env, mod)
+        memos = {n for (mn, n) in self.prog.runtime_memos()
+                 if mn == mod.name}
+        if isinstance(node, ast.Compare) and len(node.ops) == 1:
+            l_, r_ = node.left, node.comparators[0]
+            # `n in _seen`: a run-time memo of earlier verdicts is
+            # transparent (its soundness is the common clause DM's business):
+            # the language is the one decided with the memo empty
+            if isinstance(node.ops[0], (ast.In, ast.NotIn)) and \
+                    isinstance(r_, ast.Name) and r_.id in memos:
+                return Lang(self.ALL if isinstance(node.ops[0], ast.NotIn)
+                            else self.NONE, self.NONE)
+            # `type(n) is str`: the property quantifies over strings
+            if isinstance(node.ops[0], (ast.Is, ast.IsNot, ast.Eq,
+                                        ast.NotEq)) and \
+                    isinstance(l_, ast.Call) and \
+                    isinstance(l_.func, ast.Name) and l_.func.id == 'type' \
+                    and len(l_.args) == 1 and \
+                    self.is_var(l_.args[0], var, env) and \
+                    isinstance(r_, ast.Name):
+                is_str = r_.id == 'str'
+                if isinstance(node.ops[0], (ast.IsNot, ast.NotEq)):
+                    is_str = not is_str
+                return Lang(self.ALL if is_str else self.NONE, self.NONE)
+        if isinstance(node, ast.Call) and isinstance(node.func, ast.Name) \
+                and node.func.id == 'isinstance' and len(node.args) == 2 and \
+                self.is_var(node.args[0], var, env):
+            t_ = node.args[1]
+            names = [e.id for e in (t_.elts if isinstance(t_, ast.Tuple)
+                                    else [t_]) if isinstance(e, ast.Name)]
+            return Lang(self.ALL if 'str' in names else self.NONE, self.NONE)
         if isinstance(node, ast.Constant) and \
                 isinstance(node.value, (bool, int, type(None))):
             # an option left at its default (see validator())
@@ -473,6 +536,35 @@ class Translator:
                         % (f.qualname, fi.name))
         return env
 
+    def _is_memo_store(self, s, mod):
+        """`_seen.add(n)` / `_seen[n] = True` / `if <anything>: <such
+        stores only>` (bounded memo) / `if len(_seen) > N: _seen.clear()` on
+        a run-time memo of the module."""
+        memos = {n for (mn, n) in self.prog.runtime_memos()
+                 if mn == mod.name}
+        if not memos:
+            return False
+
+        def store(x):
+            if isinstance(x, ast.Expr) and isinstance(x.value, ast.Call) and \
+                    isinstance(x.value.func, ast.Attribute) and \
+                    isinstance(x.value.func.value, ast.Name) and \
+                    x.value.func.value.id in memos and \
+                    x.value.func.attr in ('add', 'setdefault', 'clear', 'pop',
+                                          'popitem', 'discard', 'append'):
+                return True
+            if isinstance(x, ast.Assign) and len(x.targets) == 1 and \
+                    isinstance(x.targets[0], ast.Subscript) and \
+                    isinstance(x.targets[0].value, ast.Name) and \
+                    x.targets[0].value.id in memos:
+                return True
+            if isinstance(x, ast.If) and not any(
+                    isinstance(n, (ast.Raise, ast.Return))
+                    for n in ast.walk(x)):
+                return all(store(y) for y in x.body + x.orelse)
+            return False
+        return store(s)
+
     def exc_name(self, node):
         if isinstance(node, ast.Raise) and node.exc is not None:
             e = node.exc
@@ -505,6 +597,8 @@ class Translator:
                 else:
                     env[s.targets[0].id] = s.value
                 continue
+            if self._is_memo_store(s, mod):
+                continue       # remembering a verdict changes no verdict
             if isinstance(s, ast.If):
                 self.if_stmt(s, fi, var, env, st, in_try, depth)
                 continue
